@@ -499,6 +499,12 @@ BRIDGE = {
         "theorems": ["process_events_sim_env", "GEN_process_events_returns", "GEN_process_events_bounded"],
         "props": ["C08", "C18", "C19"],
     },
+    "Rough.Bridge.ConfigLoaders": {
+        "rs_modules": ["EnvConfig", "FileConfig"],
+        "theorems": ["env_config_new_eq", "loadEnv_raw", "file_config_new_eq", "file_config_new_docs", "file_config_unknown_key",
+                     "file_config_unknown_key_resolved", "file_config_unknown_key_counterexample"],
+        "props": ["C16"],
+    },
     "Rough.Bridge.Stats": {
         "rs_modules": ["StatsCore", "StatsAgg", "StatsPer"],
         "theorems": ["uniq_init", "uniq_record", "per_client_record_eq", "per_client_clear_eq", "per_client_totals_eq",
@@ -544,6 +550,7 @@ _BRIDGE_WHAT = {
     "Rough.Bridge.Tables": "tag.rs / version.rs (wire values, from_wire, is_nested, names, signing contexts, supported-versions list: the tables the other generated modules use through externs)",
     "Rough.Bridge.ProcessEvents": "server.rs process_events / handle_health_check / send_client_stats (poll tokens, the three event arms, the backlog flag and the post-loop service, the accept loop, publication of the recorder's entries) refine the model EventLoop.processEvents the LOOP_* theorems are about",
     "Rough.Props.GenLoop": "server.rs process_events as regenerated from the source returns normally from every invariant-satisfying state for every token set, queue, clock, drawable fault injection and log level (GEN_process_events_returns) and puts at most 16*batch_size datagrams on the wire per call (GEN_process_events_bounded)",
+    "Rough.Bridge.ConfigLoaders": "config/environment.rs EnvironmentConfig::new and config/file.rs FileConfig::new (every documented key: which text is refused — Err or panic — and the field value otherwise equal the model's envSet / fileSet / loadFile, for every process environment and every YAML mapping; no or several documents, unknown keys)",
     "Rough.Bridge.SendResponses": "responder.rs send_responses (the whole batch loop incl. failing sends, fault injection, lazily evaluated debug! arguments, statistics events)",
 }
 for _pid, _cfg in PROPS.items():
